@@ -285,10 +285,28 @@ class Server:
     def endpoint_of(self, req, url):
         """which handler werkzeug dispatches to (None: no match / method not allowed / converter error)"""
         try:
-            ep, _ = self.adapter.match(urllib.parse.urlsplit(url).path, method=req["method"])
+            ep, _ = self.adapter.match(urllib.parse.unquote(urllib.parse.urlsplit(url).path), method=req["method"])
             return ep.__name__
         except Exception:
             return None
+
+    def routing_agrees(self, req, url, routes):
+        """does werkzeug route the URL to the rule the generator intended?  (a static `$metadata`
+        segment also matches the identifier converter of a sibling rule for other methods; such
+        requests are run through the oracle only, URL matching is not modelled)"""
+        import werkzeug.exceptions as wx
+        allowed = [set(ms) | ({"HEAD"} if "GET" in ms else set()) for (r, ms, e) in routes if r == req["rule"]]
+        try:
+            rule, _ = self.adapter.match(urllib.parse.unquote(urllib.parse.urlsplit(url).path), method=req["method"], return_rule=True)
+            return rule.rule == G.BASE + req["rule"]
+        except wx.NotFound:
+            return not allowed
+        except wx.MethodNotAllowed:
+            return bool(allowed) and not any((not a) or req["method"] in a for a in allowed)
+        except wx.BadRequest:
+            return any((not a) or req["method"] in a for a in allowed)
+        except Exception:
+            return False
 
     def fire(self, req):
         url, kw = http_of(req)
@@ -327,6 +345,8 @@ def oracle_c11(req, resp, exc, before, after, unimplemented):
     st = resp.status_code
     if st >= 500 and not (st == 501 and unimplemented):
         return ("5xx", f"status {st}")
+    if st < 400 and req.get("must_reject"):
+        return ("accepted", f"status {st} for input of class {req['must_reject']}")
     if (400 <= st < 500 or st == 501) and before != after:
         return ("state-changed", f"status {st} but the stored data changed")
     if (400 <= st < 500 or st == 501) and st != 406 and req["method"] != "HEAD" and not result_body_ok(resp):
@@ -334,18 +354,23 @@ def oracle_c11(req, resp, exc, before, after, unimplemented):
     return None
 
 
-def run_history(server, objs, files, backed, reqs, stop_after_mutation=False, maxlen=10**9):
+def run_history(server, objs, files, backed, reqs, stop_after_mutation=False, maxlen=10**9, routes=None):
     """Runs reqs (a prefix of them if stop_after_mutation: until a POST/PUT/DELETE was answered 2xx)
     on the real server.  -> dict(rows, fails [(index, kind, text, endpoint)], case (Coq term), eps, n, terms)"""
     import common
     sym = G.Sym()
     state_term = G.cstate(sym, objs, files, backed)     # assigns the symbols of the initial state first
     store, fc = server.reset(objs, files, backed)
-    rows, fails, terms, eps = [], [], [], []
+    rows, fails, terms, eps, deferred, used = [], [], [], [], [], []
     n = 0
     for k, req in enumerate(reqs):
         if k >= maxlen:
             break
+        if req.get("oracle_only") or (routes is not None and not server.routing_agrees(req, url_of(req), routes)):
+            deferred.append(req)
+            n += 1
+            continue
+        used.append(req)
         terms.append(coq_request(sym, req))
         try:
             before = G.snapshot(store, fc)
@@ -362,14 +387,15 @@ def run_history(server, objs, files, backed, reqs, stop_after_mutation=False, ma
             srow = [-99]
         f = oracle_c11(req, resp, exc, before, after, ep == "not_implemented")
         if f:
-            fails.append((k, f[0], f[1], ep))
+            fails.append((len(used) - 1, f[0], f[1], ep))
         rows.append(enc_response(sym, req, resp, exc, ep, backed))
         rows.append(srow)
         n += 1
         if stop_after_mutation and before != after:
             break
     case = f"({state_term}, [{'; '.join(terms)}], {G.cz(common.zhash_d(rows, 2))})"
-    return {"rows": rows, "fails": fails, "case": case, "eps": eps, "n": n, "state_term": state_term, "terms": terms}
+    return {"rows": rows, "fails": fails, "case": case, "eps": eps, "n": n, "state_term": state_term, "terms": terms,
+            "deferred": deferred, "reqs": used}
 
 
 PRELUDE = ("From Coq Require Import List ZArith String.\nFrom Basyx Require Import model.Files model.Http model.HttpObs "
